@@ -1,6 +1,6 @@
 (* M7 - functional restatement of pyflyby's _MissingImportFinder (lib/python/pyflyby/_autoimp.py),
    transcribed from DESIGN.md Appendix D / design-notes/spikes/finder_proto.py, with the three
-   F10 repairs of fixes/F10-*.diff (annotations and `returns` visited in the enclosing scope;
+   F10 repairs of fixes/F10-*.diff (decorators, annotations and `returns` visited in the enclosing scope;
    `for`: iterable before target; `+=` loads its target first).
    Scope dictionaries are aliased in Python (ScopeStack tuples share dict objects); here every
    dict lives in a store under an id and a ScopeStack is the list of ids, most global first.
@@ -334,9 +334,10 @@ Fixpoint vstmt (track : bool) (x : stmt) (stk : stack) (s : st) {struct x} : st 
   | SImportFrom ln modname items =>
       fold_left (fun s it => store_import track s stk [fst it] (snd it) (Some modname)) items (with_ln s ln)
   | SDef ln nm decos ps ret body =>
-      let '(stkA, s1) := push (with_ln s ln) stk true false false in
-      let s2 := if Nat.ltb 0 (in_cd s1) then set_in_scope s1 (top stkA) [n_class] Plain else s1 in
-      let s3 := vdecos track decos stkA s2 in
+      (* repaired: decorator_list is visited before the function's scope is opened *)
+      let s0 := vdecos track decos stk (with_ln s ln) in
+      let '(stkA, s1) := push s0 stk true false false in
+      let s3 := if Nat.ltb 0 (in_cd s1) then set_in_scope s1 (top stkA) [n_class] Plain else s1 in
       let s4 := varguments track ps stkA (with_ln s3 ln) in
       (* repaired: with _UpScopeCtx(): visit(node.returns) *)
       let s5 := voexpr track ret (removelast stkA) s4 in
